@@ -46,4 +46,38 @@ theorem select_not_perm_invariant : ¬SelectPermInvariant := by
 example : (lookup "a" (selectResultPre (mk [a, b, c]) ["c"]).disabled).map (fun s => keys s.deps) = some ["b"] := by decide
 example : (lookup "a" (selectResultPre (mk [b, a, c]) ["c"]).disabled).map (fun s => keys s.deps) = some [] := by decide
 
+/-! ## colliding service `Name`s (outside `Good`: no load produces them)
+
+`dependentsForService` files every dependent under its `Name`.  When two enabled services carry the same `Name`
+and that name is not a map key, the entry that survives in the `dependencies` map is the one written last, i.e. it
+depends on the iteration order — and with it the `required` flag that decides between "no such service" and
+skipping.  Witness: `db`; `x` and `y` both named `ghost`, `x → db` required, `y → db` optional; select `db` with its
+dependents.  Replayed on the real code by `corpus/C15/colliding-names-dependents.json`
+(oracle key `nondeterministic:types.Project.WithSelectedServices:error-or-not:colliding-names`, a recorded finding).
+The theorems of `Props/C15.lean` exclude such projects through `NamesOK`; `dependents_keys_perm` shows that the *keys*
+of the map never depend on the order. -/
+
+def db : String × Svc := ("db", svc "db" [])
+def x : String × Svc := ("x", svc "ghost" [("db", ⟨true, "service_started"⟩)])
+def y : String × Svc := ("y", svc "ghost" [("db", ⟨false, "service_started"⟩)])
+
+/-- the walk at full strength, without the `NamesOK` hypothesis: same services in another order, same outcome -/
+def WalkPermInvariant : Prop :=
+  ∀ (p p' : Proj) (names : List String) (pol : Policy),
+    Partition p → SvcWF p → p.services.Perm p'.services → p.disabled = p'.disabled →
+    forEachService p names pol = forEachService p' names pol
+
+theorem colliding_witness : (mk [db, x, y]).services.Perm (mk [db, y, x]).services :=
+  List.Perm.cons _ (List.Perm.swap _ _ _)
+
+/-- with colliding `Name`s the outcome of the dependents walk depends on the iteration order -/
+theorem walk_not_perm_invariant_with_colliding_names : ¬WalkPermInvariant := by
+  intro h
+  have := h (mk [db, x, y]) (mk [db, y, x]) ["db"] .dependents (by decide) (by decide) colliding_witness rfl
+  revert this
+  decide
+
+example : forEachService (mk [db, x, y]) ["db"] .dependents = .ok ["db"] := by decide
+example : forEachService (mk [db, y, x]) ["db"] .dependents = .noSuchService := by decide
+
 end CV.Sel.Neg
